@@ -573,6 +573,26 @@ func deriveTripCount(loop *Loop) {
 	limitC := limitSCEV.EvaluateAt(nil, nil)
 	stepC := iv.Step.EvaluateAt(nil, nil)
 
+	// The closed forms below are computed over unbounded integers. A step other than +-1 can
+	// jump over the window in which the test fails; the counter then wraps around its type and
+	// the loop keeps running (uint8 10,7,4,1,254,...: 174 iterations, not 4).
+	// A start or limit computed in a narrow type (c := uint8(3); i < c-5) is evaluated here without
+	// wrapping: a value outside the counter's type is not the value the loop compares with.
+	if lo, hi, ok := intRange(iv.Phi.Type()); ok {
+		for _, c := range []*big.Int{startC, limitC} {
+			if c != nil && (c.Cmp(lo) < 0 || c.Cmp(hi) > 0) {
+				loop.TripCount = &SCEVUnknown{Value: nil}
+				return
+			}
+		}
+	}
+	if !isNEQ && stepC != nil && stepC.CmpAbs(big.NewInt(1)) > 0 {
+		if !exitWithoutWrap(iv.Phi.Type(), startC, limitC, stepC, isUpCounting, isInclusive) {
+			loop.TripCount = &SCEVUnknown{Value: nil}
+			return
+		}
+	}
+
 	if startC != nil && limitC != nil && stepC != nil {
 		if !isNEQ {
 			// Determine if Dead (TripCount 0) or Divergent (Unknown)
@@ -671,6 +691,74 @@ func deriveTripCount(loop *Loop) {
 		quotient := &SCEVGenericExpr{Op: token.QUO, X: numer, Y: absStep}
 		loop.TripCount = &SCEVMax{X: zero, Y: quotient}
 	}
+}
+
+// intRange returns the smallest and largest value of the integer type t.
+func intRange(t types.Type) (lo, hi *big.Int, ok bool) {
+	basic, isBasic := t.Underlying().(*types.Basic)
+	if !isBasic || basic.Info()&types.IsInteger == 0 {
+		return nil, nil, false
+	}
+	bits := uint(64)
+	switch basic.Kind() {
+	case types.Int8, types.Uint8:
+		bits = 8
+	case types.Int16, types.Uint16:
+		bits = 16
+	case types.Int32, types.Uint32:
+		bits = 32
+	}
+	lo, hi = new(big.Int), new(big.Int)
+	if basic.Info()&types.IsUnsigned != 0 {
+		hi.Sub(new(big.Int).Lsh(big.NewInt(1), bits), big.NewInt(1))
+	} else {
+		hi.Sub(new(big.Int).Lsh(big.NewInt(1), bits-1), big.NewInt(1))
+		lo.Neg(new(big.Int).Lsh(big.NewInt(1), bits-1))
+	}
+	return lo, hi, true
+}
+
+// exitWithoutWrap reports whether a counter of type t that moves from start by step reaches a
+// value failing the test against limit before leaving the range of t. With a start or limit that
+// is not a constant this is only assumed for 64-bit counters (the values that wrap lie within
+// |step| of the end of the range).
+func exitWithoutWrap(t types.Type, start, limit, step *big.Int, up, inclusive bool) bool {
+	lo, hi, ok := intRange(t)
+	if !ok {
+		return false
+	}
+	if start == nil || limit == nil {
+		if lo.Sign() == 0 && !up {
+			return false // counting down towards a small limit wraps below zero at any width
+		}
+		return hi.BitLen() >= 63
+	}
+	// first value of start + k*step (k >= 0) that fails the test
+	v := new(big.Int).Set(start)
+	fails := func() bool {
+		c := v.Cmp(limit)
+		if up {
+			return c > 0 || (!inclusive && c == 0)
+		}
+		return c < 0 || (!inclusive && c == 0)
+	}
+	if !fails() {
+		dist := new(big.Int).Sub(limit, v)
+		if inclusive {
+			if up {
+				dist.Add(dist, big.NewInt(1))
+			} else {
+				dist.Sub(dist, big.NewInt(1))
+			}
+		}
+		// k = ceil(dist / step), both of the same sign
+		k, m := new(big.Int).QuoRem(dist, step, new(big.Int))
+		if m.Sign() != 0 {
+			k.Add(k, big.NewInt(1))
+		}
+		v.Add(v, new(big.Int).Mul(k, step))
+	}
+	return v.Cmp(lo) >= 0 && v.Cmp(hi) <= 0
 }
 
 // onlyComputesCondition reports whether every instruction of block b before its terminator is a
